@@ -83,6 +83,13 @@ def base_cases(r, tier):
     pre8 += [F("dst/src/log.~1~", 7, 120), F("dst/src/f1.~2~", 8, 121), F("dst/src/README.~1~", 9, 122)]
     out.append({"name": "backup-prefix-names", "spec": spec8, "pre": pre8, "bs": "4096", "expect_fail": False, "opts": ["--backup", "numbered"]})
     out.append({"name": "backup-prefix-names-auto", "spec": copy.deepcopy(spec8), "pre": copy.deepcopy(pre8), "bs": "4096", "expect_fail": False, "opts": ["--backup", "auto"]})
+    # T9: more one-block files than half the customary descriptor limit, under that limit: whether the workers keep up with the
+    # dispatcher must not decide the outcome
+    spec9 = [{"p": "src", "k": "d"}] + [{"p": "src/d%d" % k, "k": "d"} for k in range(4)] + [F("src/d%d/f%03d" % (i % 4, i), r.choice([1, 100, 4000]), 200 + i) for i in range(900)]
+    out.append({"name": "many-files-nofile-1024", "spec": spec9, "pre": [], "bs": "4096", "expect_fail": False, "nofile": 1024, "per": 10 if tier == "quick" else 40,
+                "scheds": [({"sched": "role", "role_order": "dispatcher,walker,copy,main,worker"}, 1), ({"sched": "free"}, 16), ({"sched": "role", "role_order": "dispatcher,walker,copy,main,worker"}, 2),
+                           ({"sched": "free"}, 1), ({"sched": "role", "role_order": "dispatcher,walker,copy,main,worker"}, 4), ({"sched": "lifo"}, 2), ({"sched": "jitter", "jitter": [300, 1500]}, 4),
+                           ({"sched": "role", "role_order": "walker,dispatcher,copy,main,worker"}, 2), ({"sched": "pct", "sched_d": 3}, 4), ({"sched": "free"}, 64)]})
     if tier == "thorough":
         for k in range(4):
             sp = [{"p": "src", "k": "d"}] + tree.gen_tree(r, depth=3, fanout=4, kinds=("f", "f", "d", "l"), prefix="src", nonutf8=True,
@@ -97,13 +104,16 @@ def gen_cases(tier, seed):
     gid = 0
     for bc in base_cases(r, tier):
         for driver in ("parfile", "parblock"):
-            for k in range(per):
+            for k in range(bc.get("per", per)):
                 sch = dict(SCHEDS[k % len(SCHEDS)]) if k < len(SCHEDS) else dict(r.choice(SCHEDS))
                 sch["sched_seed"] = r.randrange(1 << 30)
                 w = [1, 2, 4, 16, 64][k % 5] if k < 5 else r.choice([1, 2, 3, 4, 8, 16, 64])
+                if bc.get("scheds"):
+                    sch, w = bc["scheds"][k % len(bc["scheds"])]
+                    sch = dict(sch, sched_seed=r.randrange(1 << 30))
                 yield {"group": gid, "name": bc["name"], "spec": bc["spec"], "pre": bc["pre"], "driver": driver, "workers": w,
                        "args": ["--driver", driver, "-w", str(w), "--block-size", bc["bs"]] + bc.get("opts", []) + ["-r", "src", "dst"], "plan": sch,
-                       "expect_fail": bc["expect_fail"], "fs": "ext4", "rules": bc.get("rules", [])}
+                       "expect_fail": bc["expect_fail"], "fs": "ext4", "rules": bc.get("rules", []), "nofile": bc.get("nofile")}
         gid += 1
 
 
@@ -128,6 +138,8 @@ def run_case(case):
         tree.materialize(root, tree.fix_mtimes(case["spec"]))
         tree.materialize(root, tree.fix_mtimes(case["pre"], 1_500_000_000_000_000_000))
         plan = dict(case["plan"])
+        if case.get("nofile"):
+            plan["nofile"] = case["nofile"]
         plan.update({"log_mode": "full", "pct_horizon": 600, "sched_cap_us": 3000, "umask": 0o027,
                      "rules": [dict(x, under=root + "/") if "suffix" not in x else dict(x) for x in case.get("rules", [])]})
         run = core.run_xcp(sb, case["args"], plan)
